@@ -280,8 +280,10 @@ class FindTuple(_ast_util.NodeVisitor):
                 p.declared_identifiers
             )
             lui = self.listener.undeclared_identifiers
+            # a name the argument binds itself (a comprehension variable)
+            # is not read from outside
             self.listener.undeclared_identifiers = lui.union(
-                p.undeclared_identifiers
+                p.undeclared_identifiers.difference(p.declared_identifiers)
             )
 
 
